@@ -4,13 +4,14 @@
 # the change straight afterwards. Never commits anything in /repo.
 set -u
 what="$1"; id="$2"; tier="${3:-quick}"; seed="${4:-1}"
+V="$(cd "$(dirname "$0")/.." && pwd)"
 cd /repo || exit 2
 if [ -n "$(git status --porcelain --untracked-files=no)" ]; then echo "repo not clean"; exit 2; fi
 case "$what" in
   revert:*) git show "${what#revert:}" | git apply -R || { echo "cannot revert"; exit 2; } ;;
   *) git apply "$what" || { echo "cannot apply $what"; exit 2; } ;;
 esac
-cd /verif
+cd "$V"
 cp evidence/"$id".json /tmp/evidence_"$id".bak 2>/dev/null
 VERIF_SEED=$seed ./run.sh "$id" "$tier" > /tmp/mutant.out 2>&1
 rc=$?
